@@ -1,10 +1,10 @@
 """C13 — R1CS gadgets compute what the native code computes, and are complete (honest synthesis)."""
 from ..core import *
-from .. import harness, gen, pyref, gadgets as G, coq
+from .. import harness, gen, pyref, gadgets as G, coq, model
 from ..curve import *
 
 VO = ['Props/C13.vo']
-FILES = ['Props/C13.v', 'Proofs/GadgetProofs.v', 'Proofs/Codec.v', 'Proofs/Elligator.v']
+FILES = ['Props/C13.v', 'Proofs/GadgetProofs.v', 'Proofs/WrapperProofs.v', 'Model/Wrapper.v', 'Proofs/Codec.v', 'Proofs/Elligator.v']
 
 def honest_cases(ctx, scale):
     rng = ctx.rng; pool = Pool('ark', rng.fork('pool'), n_rand=4 * scale)
@@ -75,6 +75,103 @@ def lazy_checks(ctx, scale):
             if ch == 'e': have_e = True
     return len(lines), fails
 
+
+HIST_CODE = {'e': 0, 'c': 1, 'v': 2, 'a': 3, 'A': 3, 'k': 9, 'p': 3, 's': 4, 'S': 4, 'j': 10, 'm': 4, 'd': 5, 'n': 6, 'q': 7, 'x': 8}
+MODE_KIND = {'const': 0, 'witness': 2, 'input': 3}
+
+def parse_reads(s):
+    """'c:<hex>;v:<x>,<y>[,z,t]' -> [('c', s) | ('v', (x, y)) | ('v', None)]"""
+    out = []
+    if s in ('-', ''): return out
+    for r in s.split(';'):
+        k, v = r.split(':', 1)
+        if k == 'c':
+            try: out.append(('c', int(v, 16)))
+            except ValueError: out.append(('c', None))
+        else:
+            try:
+                c = [int(x, 16) for x in v.split(',')]
+                out.append(('v', (c[0], c[1]) if len(c) == 2 else pyref.aff(c)))
+            except ValueError: out.append(('v', None))
+    return out
+
+def history_checks(ctx, pool, scale):
+    """histories of wrapper operations on ONE variable (forcing the encoding / the element in every order, in-place and
+    out-of-place group operations in between, reads at every point): implementation vs the Coq model (Model/Wrapper.v,
+    extracted) and vs the same history on a native Element (the property predicate)."""
+    rng = ctx.rng; fails = []; mism = []
+    letters = 'ecvaAksSjdnpmqx'
+    hists = ['c', 'v', 'cac', 'cdc', 'cAcv', 'ckc', 'csc', 'cSc', 'cjc', 'cnc', 'cpc', 'cmc', 'cqc', 'cxc', 'ecac', 'vcdcv', 'cvacvdc', 'ccaac', 'cdedc', 'vnvcnc', 'cacscdc']
+    for _ in range(10 * scale):
+        n = 2 + rng.below(7)
+        h = ''.join(rng.choice(letters) for _ in range(n))
+        # make sure values are read after the last mutation
+        hists.append(h + rng.choice(['c', 'v', 'cv', 'vc']))
+    lines = []; mlines = []; nat = []; meta = []
+    for h in hists:
+        a = pool.pick(rng); b = pool.pick(rng)
+        if not (pyref.valid(a) and pyref.valid(b)): continue
+        ax, ay = pyref.aff(a); bx, by = pyref.aff(b)
+        for mode in ('witness', 'input', 'const'):
+            lines.append('r1.hist %s %s %s %s' % (mode, E(a), E(b), h))
+            k = MODE_KIND[mode]
+            mlines.append('g r1.hist %d %d %d %d %d %d %s' % (k, ax, ay, k, bx, by, ' '.join(str(HIST_CODE[c]) for c in h)))
+            nat.append('el.hist %s %s %s' % (E(a), E(b), h)); meta.append((h, mode, None))
+        ss = pool.encodable + [0, 3, 1, Q - 1, gen.rand_field(rng, Q)]
+        s = rng.choice(ss)
+        for mode in ('witness', 'input'):
+            lines.append('r1.hist.enc %s %x %s %s' % (mode, s, E(b), h))
+            mlines.append('g r1.hist 1 %d 0 %d %d %d %s' % (s, MODE_KIND[mode], bx, by, ' '.join(str(HIST_CODE[c]) for c in h)))
+            nat.append('el.hist.enc %x %s %s' % (s, E(b), h)); meta.append((h, mode, s))
+    hout = harness.run_script('ark', lines)
+    nout = harness.run_script('ark', nat)
+    mout = model.run_model(mlines)
+    for l, nl, o, no, m, (h, mode, s) in zip(lines, nat, hout, nout, mout, meta):
+        d = G.parse_r1(o)
+        if 'sat' not in d or 'reads' not in d:
+            if 'UNSUPPORTED' in o: continue
+            if d.get('sat') == '0' and 'err' in d and m and m[0] == 0:
+                # synthesis stopped with an error after the system became unsatisfiable (e.g. DivisionByZero while doubling the
+                # non-point decoded from an invalid encoding): model and implementation agree on the verdict; the native history must fail too
+                if no != 'ERR':
+                    fails.append(('%s: unsatisfied (%s) although the native history succeeds' % (l[:80], d.get('err')), {'script': [l, nl], 'output': [o, no]}, {'class': 'history', 'what': 'unsat'}))
+                continue
+            mism.append({'line': l, 'implementation': o, 'model': m, 'why': 'no sat/reads'})
+            if no != 'ERR' and not no.startswith('PANIC'):
+                fails.append(('%s: honest synthesis fails (%s) although the native history succeeds' % (l[:70], o[:80]), {'script': [l, nl], 'output': [o, no]},
+                              {'class': 'history', 'what': 'error', 'err': d.get('err', '')}))
+            continue
+        sat = d['sat'] == '1'; reads = parse_reads(d['reads'])
+        # (1) correspondence with the Coq model
+        exp = []
+        j = 1
+        while isinstance(m, list) and j < len(m) and m[0] in (0, 1):
+            if m[j] == 0: exp.append(('c', m[j + 1])); j += 2
+            else: exp.append(('v', (m[j + 1], m[j + 2]))); j += 3
+        if not m or m[0] != (1 if sat else 0) or (sat and exp != reads):
+            mism.append({'line': l, 'implementation': o[:400], 'model': m})
+        # (2) the property: satisfied exactly when the native history exists, and every value read is the native one
+        native_ok = no != 'ERR' and not no.startswith('PANIC')
+        needs = any(c not in 'cx' for c in h)
+        if s is not None and not native_ok:
+            if sat and needs:
+                fails.append(('%s: satisfied although the native decoding of %x fails' % (l[:60], s), {'script': [l, nl], 'output': [o, no]}, {'class': 'history', 'what': 'completeness'}))
+            continue
+        if not sat:
+            fails.append(('%s: honest synthesis is unsatisfied (%s)' % (l[:80], o[:80]), {'script': [l, nl], 'output': [o, no]}, {'class': 'history', 'what': 'unsat'})); continue
+        nreads = parse_reads(no)
+        ok = len(nreads) == len(reads)
+        if ok:
+            for (k1, v1), (k2, v2) in zip(reads, nreads):
+                if k1 != k2 or v1 is None or v2 is None: ok = False
+                elif k1 == 'c': ok = ok and v1 == v2
+                else: ok = ok and pyref.coset_eq(v1, v2)
+        if not ok:
+            fails.append(('history %s on a %s variable: the gadget reads %s, the native history reads %s' % (h, mode, d['reads'][:200], no[:200]),
+                          {'script': [l, nl], 'output': [o, no]}, {'class': 'history', 'what': 'value'}))
+    ctx.extra['history_ops'] = {'histories': len(lines), 'letters': letters}
+    return len(lines), mism, fails
+
 def run_check(ctx):
     st = coq.proof_stage(ctx, 'Props.C13', VO, FILES)
     finish_proof(ctx, st)
@@ -90,6 +187,9 @@ def run_check(ctx):
         for m in mism[:20]: broken.append(('gadget model and implementation disagree on: %s' % m['line'][:140], {'stage': 'correspondence', **m}))
         n2, f2 = native_agreement(ctx, pool, scale); ctx.cov['evaluations'] += n2; ctx.cov['distinct_nontrivial'] += n2
         n3, f3 = lazy_checks(ctx, scale); ctx.cov['evaluations'] += n3; ctx.cov['distinct_nontrivial'] += n3
+        n4, m4, f4 = history_checks(ctx, pool, scale); ctx.cov['evaluations'] += n4; ctx.cov['distinct_nontrivial'] += n4
+        for m in m4[:20]: broken.append(('wrapper-history model and implementation disagree on: %s' % m['line'][:140], {'stage': 'correspondence', **m}))
+        f3 = f3 + f4
     except RuntimeError as e:
         ctx.violation('harness or model failed: %s' % str(e)[:300], {'stage': 'build', 'log': str(e)[-3000:]}, {'stage': 'build'}, found_input=False); return
     # the property predicate on the implementation is evaluated on every run (value agreement with native code, lazy rule)
@@ -105,5 +205,5 @@ def run_check(ctx):
     if broken and not ctx.violations:
         for desc, replay in broken[:5]:
             ctx.violation('C13 is no longer shown to hold — %s; no failing input found on the implementation' % desc, replay, {'stage': replay.get('stage'), 'line': replay.get('line', '')[:60]}, found_input=False)
-    ctx.cov['rule'] = 'honest synthesis of every gadget in real constraint systems (ark-relations) vs the Coq gadget model and vs the native ops; all forcing orders of length <= 4 on a lazy variable'
+    ctx.cov['rule'] = 'honest synthesis of every gadget in real constraint systems (ark-relations) vs the Coq gadget model and vs the native ops; all forcing orders of length <= 4 on a lazy variable; histories of wrapper operations (+= -= double_in_place negate + - select clone interleaved with compress_to_field/value reads) on one variable in every allocation mode vs Model/Wrapper.v and vs the native history'
     ctx.assumptions += ['the determinism of ark-r1cs-std 0.4 primitives assumed by Model/Gadgets.v (tied by correspondence with hint substitution)', 'Coq kernel', 'extraction']
